@@ -10,7 +10,7 @@ use crate::opt::{landscape_strat, run_script, same_bits, Landscape, LandscapePol
 use crate::probe::Expect;
 
 pub const TITLE: &str = "The optimiser terminates normally and does the amount of work requested";
-pub const RULE: &str = "part work: steps in {0,1,2,...,5000} (small values favoured), inner_steps in {0,1,...,2*steps+1} (multiples, non-multiples, larger than steps), kT >= 0 with every cooling option, max_step_size in {0, 1e-4..1}, convergence in {None,0,1e-9,1e-3,1e9}, synthetic states (3..6 parameters on a wide range, so no move is clamped) scored by a generated landscape (concave, rippled, plateaus: converging early, late or never). Oracle: no panic; the number of proposals P (score() calls that changed a parameter) satisfies steps - min(inner,steps) < P <= steps (P = 0 when steps or inner_steps is 0) with one evaluation before and at most one after; the run with a convergence threshold is a bit-exact prefix of the run without it (same seed), and a proper prefix ends at an inner-loop boundary m >= 6 whose last six loops each improved the current score by less than the threshold (improvements recomputed from the trace at kT=0). part cli: argument vectors from a grammar of valid and invalid values (group names incl. unknown, polygon sides 0..12 and -1, LJ+polygon, trimer options incl. degenerate, replications 0..3, steps and inner-steps incl. 0, unknown potential, missing output directory); oracle: exit 0 with both output files present and parseable, or exit != 0 with a message on stderr, never exit 101 / 'panicked at'. Non-trivial = inner does not divide steps, or steps*inner = 0, or an early exit occurred, or (cli) an invalid argument vector; distinct by hash of the case.";
+pub const RULE: &str = "part work: steps in {0,1,2,...,5000} (small values favoured), inner_steps in {0,1,...,2*steps+1} (multiples, non-multiples, larger than steps), kT >= 0 with every cooling option, max_step_size in {0, 1e-9..1e-6 of a range of 2e6 (absolute moves 1e-3..1, never clamped)}, convergence in {None,0,1e-9,1e-3,1e9}, synthetic states (3..6 parameters on a wide range, so no move is clamped) scored by a generated landscape (concave, rippled, plateaus: converging early, late or never). Oracle: no panic; the number of proposals P (score() calls that changed a parameter) satisfies steps - min(inner,steps) < P <= steps (P = 0 when steps or inner_steps is 0) with one evaluation before and at most one after; the run with a convergence threshold is a bit-exact prefix of the run without it (same seed), and a proper prefix ends at an inner-loop boundary m >= 6 whose last six loops each improved the current score by less than the threshold (improvements recomputed from the trace at kT=0). part cli: argument vectors from a grammar of valid and invalid values (group names incl. unknown, polygon sides 0..12 and -1, LJ+polygon, trimer options incl. degenerate, replications 0..3, steps and inner-steps incl. 0, unknown potential, missing output directory); oracle: exit 0 with both output files present and parseable, or exit != 0 with a message on stderr, never exit 101 / 'panicked at'. Non-trivial = inner does not divide steps, or steps*inner = 0, or an early exit occurred, or (cli) an invalid argument vector; distinct by hash of the case.";
 
 pub fn assumptions() -> Vec<&'static str> {
     vec!["a CLI run that exceeds 120 s is reported as inconclusive (exit 2), not as a violation", "with max_step_size = 0 proposals cannot be told from the final validity evaluation; the count is then accepted under either reading"]
@@ -42,7 +42,9 @@ fn work_strat(_: &Ctx) -> BoxedStrategy<WorkCase> {
                 prop_oneof![2 => Just(0.), 2 => (-4.0..1.0f64).prop_map(|e| 10f64.powf(e))],
                 prop_oneof![Just(None), Just(Some(0.)), Just(Some(1e-3)), Just(Some(10.))],
                 prop_oneof![Just(None), Just(Some(0.)), Just(Some(0.1)), Just(Some(1.))],
-                prop_oneof![1 => Just(0.), 4 => (-4.0..0.0f64).prop_map(|e| 10f64.powf(e)), 1 => Just(1.0)],
+                // bounds are +-1e6: a relative step of 1e-9..1e-6 is an absolute move of 1e-3..1, and no run is long
+                // enough to reach a bound (a clamped no-op proposal would be indistinguishable from a final evaluation)
+                prop_oneof![1 => Just(0.), 5 => (-9.0..-6.0f64).prop_map(|e| 10f64.powf(e))],
                 prop_oneof![Just(None), Just(Some(0.)), Just(Some(1e-9)), Just(Some(1e-3)), Just(Some(1e9))],
                 any::<u64>(),
                 Just(n),
@@ -58,7 +60,7 @@ fn work_strat(_: &Ctx) -> BoxedStrategy<WorkCase> {
 }
 
 fn run(c: &WorkCase, cfg: &OptCfg) -> RunOut {
-    let bounds = vec![(-1.0e3, 1.0e3); c.n];
+    let bounds = vec![(-1.0e6, 1.0e6); c.n];
     run_script(cfg, &c.init, &bounds, cfg.kt_start == 0., true, Box::new(LandscapePolicy(c.land.clone())))
 }
 
